@@ -1,3 +1,18 @@
 import Gossamer.Props.C11
-open Gossamer.C11
-#print axioms C11_spec_roundtrip
+open Gossamer.C11 Gossamer.Scale
+#print axioms C11_encodeUint_canonical
+#print axioms C11_encodeBigInt_canonical
+#print axioms C11_encode_canonical
+#print axioms C11_roundtrip_partial
+#print axioms C11_roundtrip_canonical
+#print axioms C11_roundtrip_counterexample
+#print axioms C11_marshalGo_partial
+#print axioms C11_marshalGo_counterexample
+#print axioms C11_fieldOrder_mem
+#print axioms C11_fieldOrder_sorted
+#print axioms decPA_spec
+#print axioms Gossamer.Scale.Spec.roundtrip
+#print axioms Gossamer.Scale.Spec.sound
+#print axioms Gossamer.Scale.Spec.truncated
+#print axioms Gossamer.Scale.compactDec_enc
+#print axioms Gossamer.Scale.compactDec_sound
